@@ -178,3 +178,10 @@ enum ByteTokenLoweredPriority {
     #[token(b"if", priority = 1)] If,            // explicit 1: the regex (2) wins, no tie
     #[regex("[a-z]+")] Ident,
 }
+
+// classes of multi-byte characters: the default priority counts 2 per class / per character, not per byte
+#[derive(Logos)] enum TieMultiByteClass { #[regex("[α-ω]")] A, #[regex("[a-zα-ω]")] B }
+#[derive(Logos)] enum TieMultiByteLiteral { #[regex("é")] A, #[regex("[à-ÿ]")] B }
+#[derive(Logos)] enum TieMultiByteSeq { #[regex("[α-ω][α-ω]")] A, #[regex("λ[a-zα-ω]")] B }
+#[derive(Logos)] enum NoTieMultiByteToken { #[token("α")] T, #[regex("[α-ω]")] R }
+#[derive(Logos)] enum NoTieMultiByteToken2 { #[token("日本")] T, #[regex("[日月][本木]")] R }
